@@ -134,7 +134,7 @@ func runC24(c *Ctx) {
 	x.r2(cb, cbName, flush)
 	x.r3Callback(poolBody, poolName, nilBody, nilName)
 	x.r3Flush(flush)
-	x.r4Flush(flush) // c24b.go
+	x.r4Flush(flush, nilBody) // c24b.go
 	x.r5Callback(cb, cbName, bodies)
 	x.r6Order(flush, nilBody)
 }
